@@ -99,7 +99,13 @@ func (k Keeper) CallEVMWithData(
 		true,                  // checkNonce
 	)
 
-	res, err := k.evmKeeper.ApplyMessage(ctx, msg, evmtypes.NewNoOpTracer(), true)
+	// Execute the message and its post-processing hooks on a cache context, so that
+	// a failing hook (or any later error) reverts the EVM state together with the
+	// hooks' own writes, as ethermint's ApplyTransaction does. The cache context is
+	// only committed when everything succeeded.
+	cacheCtx, commit := ctx.CacheContext()
+
+	res, err := k.evmKeeper.ApplyMessage(cacheCtx, msg, evmtypes.NewNoOpTracer(), true)
 	if err != nil {
 		return nil, err
 	}
@@ -110,7 +116,7 @@ func (k Keeper) CallEVMWithData(
 			TxHash: common.HexToHash(res.Hash),
 		}
 		// Only call hooks if tx executed successfully.
-		if err = k.evmKeeper.PostTxProcessing(ctx, msg, receipt); err != nil {
+		if err = k.evmKeeper.PostTxProcessing(cacheCtx, msg, receipt); err != nil {
 			// If hooks return error, revert the whole tx.
 			res.VmError = evmtypes.ErrPostTxProcessing.Error()
 			k.Logger(ctx).Error("tx post processing failed", "error", err)
@@ -132,6 +138,10 @@ func (k Keeper) CallEVMWithData(
 		}
 		txLogAttrs[i] = sdk.NewAttribute(evmtypes.AttributeKeyTxLog, string(value))
 	}
+
+	// message and hooks executed successfully: commit the cache context
+	commit()
+	ctx.EventManager().EmitEvents(cacheCtx.EventManager().Events())
 
 	// emit events
 	ctx.EventManager().EmitEvents(sdk.Events{
